@@ -79,11 +79,20 @@ func (e *Engine) VerifyFunction(fn *ssa.Function, c *Contract) *FnCtx {
 		t, qs := fr.evalFact(rq.E, env)
 		fc.addFactQ("true", t, qs)
 	}
+	for _, g := range e.cs.Globals[fn.Pkg.Pkg.Path()] {
+		env := fr.specEnv(st, st, nil, nil)
+		t, qs := fr.evalFact(g.E, env)
+		fc.addFactQ("true", t, qs)
+		fc.assumptions[fmt.Sprintf("package %s: global invariant assumed at entry (package-level variables keep their initialised values): %s", fn.Pkg.Pkg.Name(), g.Src)] = true
+	}
 	for _, as := range c.Assumes {
 		env := fr.specEnv(st, st, nil, nil)
 		t, qs := fr.evalFact(as.E, env)
 		fc.addFactQ("true", t, qs)
 		fc.assumptions[fmt.Sprintf("%s assumes (not required from callers): %s", shortFn(fn), as.Src)] = true
+	}
+	if c.AssumeFrame != "" {
+		fc.assumptions[fmt.Sprintf("%s: modifies clause assumed, not proved: %s", shortFn(fn), c.AssumeFrame)] = true
 	}
 	fc.nReqFacts = len(fc.facts)
 	if c.Trusted != "" {
@@ -119,7 +128,7 @@ func (e *Engine) VerifyFunction(fn *ssa.Function, c *Contract) *FnCtx {
 				fc.facts = fc.facts[:len(fc.facts)-1]
 			}
 		}
-		if c.ModGiven {
+		if c.ModGiven && c.AssumeFrame == "" {
 			fr.frameObligations(ri, r)
 		}
 		// cover: the return site is reachable
@@ -167,11 +176,13 @@ func (fr *Frame) frameObligations(ri int, r retSite) {
 		sortS := fc.sortOfVar(v)
 		var goal string
 		if strings.HasPrefix(sortS, "(Array") {
-			conds := []string{sApp("isold", "fr_r", a0)}
+			sk := fc.freshConst("sk_frame", "Int")
+			conds := []string{sApp("isold", sk, a0)}
 			for _, row := range allowed[v] {
-				conds = append(conds, sNot(sEq("fr_r", row)))
+				conds = append(conds, sNot(sEq(sk, row)))
 			}
-			goal = fmt.Sprintf("(forall ((fr_r Int)) (=> %s (= (select %s fr_r) (select %s fr_r))))", sAnd(conds...), cur, init)
+			fc.noteRead(cur, sk)
+			goal = sImp(sAnd(conds...), sEq(sSel(cur, sk), sSel(init, sk)))
 		} else {
 			goal = sEq(cur, init)
 		}
@@ -222,7 +233,7 @@ func (o *Obligation) BuildQuery(withModel bool, lite bool) string {
 	}
 	addc("0")
 	for _, f := range fc.facts[:o.NFacts] {
-		if lite && f.Class == "closed" {
+		if lite && (f.Class == "closed" || f.Class == "frameq") {
 			continue
 		}
 		for _, q := range f.Quants {
